@@ -4,7 +4,7 @@ in a scratch worktree (tools/seedtest.sh) and records the outcome in seeded/RESU
 import glob, json, os, re, subprocess, sys, time
 ROOT = os.path.dirname(os.path.dirname(os.path.abspath(__file__)))
 EXTRA = {"C02-memdb-evict-first": ["C18"], "C18-memdb-evict-first": ["C18"], "C12-stalled-replacement": ["C12", "C11"],
-         "C11-dispatch-drops-when-full": ["C11"], "C03-quorum-memo": ["C03", "C07", "C01"]}
+         "C11-dispatch-drops-when-full": ["C11"], "C03-quorum-memo": ["C03", "C07", "C01"], "C07-asgroup-qual-position-identity": ["C06", "C07"]}
 only = sys.argv[1:]
 res = {}
 out = os.path.join(ROOT, "seeded", "RESULTS.json")
